@@ -354,6 +354,7 @@ pub struct ExecInfo {
     pub polls_after_cancel: u64,
     pub stop_unseen: u64,
     pub sched: u64,
+    pub preemptions: u64,
 }
 
 fn take_info(st: &Shared) -> ExecInfo {
@@ -366,6 +367,7 @@ fn take_info(st: &Shared) -> ExecInfo {
         polls_after_cancel: s.polls_after_cancel,
         stop_unseen: s.stop_unseen_items,
         sched: s.sched_hash,
+        preemptions: s.preemptions,
     }
 }
 
@@ -453,6 +455,13 @@ fn exec_generic<F: Function + RenderHints + MathFunction + Clone>(
     };
     st.borrow_mut().begin_exec(pool, Some(token.clone()), plan);
     st.borrow_mut().page = work.page;
+    {
+        // one pool execution in four runs its segments on real OS threads
+        // that are handed the baton at sched points (VM op loops, polls, item
+        // boundaries): interleavings inside items, still one seed = one run
+        let s = &mut *st.borrow_mut();
+        s.preempt = pool.is_some() && s.ch.choose("preemptive", 4) == 0;
+    }
     if real.is_none() {
         rt::install(st);
     }
@@ -762,6 +771,10 @@ fn account_schedule(rep: &mut RunReport, info: &ExecInfo, pool: Option<usize>) {
         }
     }
     rep.count("fault.stop_unseen_item", info.stop_unseen);
+    if info.preemptions > 0 {
+        rep.count("sched.preemptive_executions", 1);
+        rep.count("fault.preemption_inside_item", info.preemptions);
+    }
     if info.cancel_fired {
         rep.count("fault.cancel_fired", 1);
     }
